@@ -87,7 +87,7 @@ let consumer kind toks =
 
 (* cm <mode> <K> { <G> {<name> <R> {<sv> <cv>}} } <Q> {<s> <c>}: the candidates are committed one after the other through the
    configuration manager (cm_commit from cm_init; mode boot: the first one through the start-up path, same gate);
-   per candidate: verdict ':' answers of cm_lookup on the state after it; then conc=ok (the harness's concurrent-reader
+   per candidate: verdict ':' handler applications (h0 none, h+ applied) ':' answers of cm_lookup on the state after it; then conc=ok (the harness's concurrent-reader
    check has nothing to report when C14_cm_reads_one_generation holds of the code) *)
 let cm toks =
   match toks with
@@ -101,7 +101,9 @@ let cm toks =
     let qs = qpairs qs in
     let (_, outs) = List.fold_left (fun (st, outs) cfg ->
         let st' = cm_commit st cfg in
-        let v = match validate_strict cfg with VOk -> "valid" | _ -> "rejected" in
+        (* verdict and handler applications from the step model: applied grows by one iff the candidate is accepted *)
+        let da = int_of_nat (applied st') - int_of_nat (applied st) in
+        let v = (match validate_strict cfg with VOk -> "valid" | _ -> "rejected") ^ (if da = 0 then ":h0" else ":h+") in
         let a = String.concat "," (List.map (fun (s, c) -> show_match (cm_lookup st' (n_of_int s) (n_of_int c))) qs) in
         (st', (v ^ ":" ^ a) :: outs)) (cm_init, []) cs in
     String.concat " | " (List.rev ("conc=ok" :: outs))
